@@ -68,6 +68,25 @@ CLAIMED["C01"] = {
     "design_ref": "7 (C01)",
 }
 
+CLAIMED["C03"] = {
+    "technique": "Coq proof that the inventory (map ranges, goroutines/time/rand/env/reflect/unsafe uses, package-level variables and writes, recover sites) REGENERATED from the current source by go2coq equals the audited list, plus an order-irrelevance theorem for every permutation at each audited map-range site/class; exact comparison of repeated fresh-process, in-process and concurrent runs",
+    "text": "Everything but map iteration is deterministic by construction of the code (no time/rand/goroutine sources: proved on the regenerated inventory); each remaining map range is proved order-irrelevant for all permutations. The repeated-run comparison validates the inventory's scope and explores the schema library and encoding/json.",
+    "note": "Trusted: Coq kernel, go2coq inventory (go/types), harness. Observed, not proved: determinism of the schema library, encoding/json, reggen. Known finding: concurrent example corruption.",
+    "design_ref": "7 (C03)",
+}
+CLAIMED["C06"] = {
+    "technique": "Coq theorems about the context zipper of the hand model coq/model/Core.v over the admissibility tables regenerated from directive/enumeration.go (pre-order preservation, admissibility of every edge, nearest admitting parent, rejection conditions); exhaustive/ random directive-kind sequences compared as forests with the implementation after scanning and after paste expansion",
+    "text": "The model of processContext / closeLastExplicitContext / processEOF is compared with the real directive forests (kind, parent, order, explicit flag, coordinates, trace) on all kind sequences to the length bound; the theorems quantify over all item sequences.",
+    "note": "Trusted: Coq kernel, go2coq (tables), extraction, harness (verif-tagged accessors to the directive lists). The hand model is tied by correspondence only.",
+    "design_ref": "7 (C06)",
+}
+CLAIMED["C18"] = {
+    "technique": "Coq theorems on the core model with the ban set as a parameter (every directive is created through the ban test; with INCLUDE banned the result is independent of the file system; without a banned kind the result equals the result without the option) + correspondence of the model with the implementation under ban sets and direct checks of the diagnostic location",
+    "text": "All 30 singletons and sampled sets on a reference document containing every kind directly, in macros, via PASTE and via INCLUDE; non-interference of the file system when INCLUDE is banned is observed by varying the named file.",
+    "note": "Trusted: Coq kernel, extraction, harness. Hand model tied by correspondence.",
+    "design_ref": "7 (C18)",
+}
+
 NOT_YET = {
 }
 
